@@ -165,17 +165,28 @@ Qed.
 Definition due_d (cw : Z) (d : db) : list bytes := filter (fun b => (key_time b <=? cw)%Z) d.
 Definition le_time (a b : fired) : Prop := (snd a <= snd b)%Z.
 
-Lemma fire_spec fuel : forall cw n during s d acc out s' d',
+(* [fuel] rounds of the loop, for ANY fuel (a consumer that stops after [fuel] items; enough fuel = a drained iterator):
+   the handed-out entries [fb] are distinct due entries, earliest first, no due entry that was not handed out is earlier
+   than one that was; if the fuel was not used up every due entry was handed out; exactly the handed-out entries left
+   the DB (delete-then-yield: nothing handed out stays, nothing else goes). *)
+Lemma fire_spec_gen fuel : forall cw n during s d acc out s' d',
   SInv d s -> DBInv d -> Forall dur_ok during ->
-  (length (due_d cw d) < fuel)%nat ->
   fire Q kgf fuel cw n during s d acc = (out, s', d') ->
-  exists fb, out = rev acc ++ map dec fb /\ Permutation fb (due_d cw d) /\ StronglySorted le_time (map dec fb) /\
+  exists fb, out = rev acc ++ map dec fb /\ NoDup fb /\ (forall b, In b fb -> In b (due_d cw d)) /\
+    StronglySorted le_time (map dec fb) /\
+    (forall x y, In x fb -> In y (due_d cw d) -> ~ In y fb -> (key_time x <= key_time y)%Z) /\
+    (length fb <= fuel)%nat /\ ((length fb < fuel)%nat -> forall y, In y (due_d cw d) -> In y fb) /\
     SInv d' s' /\ DBInv d' /\
     forall b, In b d' <->
-      (In b d /\ (cw < key_time b)%Z) \/
+      (In b d /\ ~ In b fb) \/
       (exists a k t, In (a, k, t) during /\ (n < a <= n + length fb)%nat /\ (cw < t)%Z /\ b = enc (k, t)).
 Proof.
-  induction fuel as [|f IH]; intros cw n during s d acc out s' d' HS HD Hdur Hfuel E; [lia|].
+  induction fuel as [|f IH]; intros cw n during s d acc out s' d' HS HD Hdur E.
+  { cbn [fire] in E. inversion E; subst out s' d'. exists []. cbn [map length]. rewrite app_nil_r.
+    split; [reflexivity|]. split; [constructor|]. split; [intros b []|]. split; [constructor|].
+    split; [intros x y []|]. split; [lia|]. split; [lia|]. split; [exact HS|]. split; [exact HD|].
+    intros b. split; [intros H; left; split; [exact H|intros []]|].
+    intros [[H _]|(a & k & t & _ & Ha & _)]; [exact H|lia]. }
   cbn [fire] in E.
   destruct (ts_peek Q d s) as [o s1] eqn:Ep.
   destruct (ts_peek_spec kgf start size Hrange d s o s1 HS HD Ep) as (HS1 & Ho).
@@ -184,15 +195,13 @@ Proof.
     destruct (cw <? key_time x)%Z eqn:Ec.
     + (* the earliest timer is not due: nothing is *)
       apply Z.ltb_lt in Ec. inversion E; subst out s' d'. exists [].
-      assert (Hnone : due_d cw d = []).
-      { unfold due_d. destruct (filter _ d) as [|y l] eqn:Ef; [reflexivity|].
-        assert (Hy : In y (filter (fun b => (key_time b <=? cw)%Z) d)) by (rewrite Ef; left; reflexivity).
-        apply filter_In in Hy as [Hy Hc]. apply Z.leb_le in Hc. specialize (Hmin _ Hy). lia. }
-      rewrite Hnone. cbn [map]. rewrite app_nil_r.
-      split; [reflexivity|]. split; [constructor|]. split; [constructor|]. split; [exact HS1|]. split; [exact HD|].
-      intros b. split.
-      * intros H. left. split; auto. specialize (Hmin _ H). lia.
-      * intros [[H _]|(a & k & t & _ & Ha & _)]; [exact H|cbn [length] in Ha; lia].
+      assert (Hnone : forall y, In y (due_d cw d) -> False).
+      { intros y Hy. unfold due_d in Hy. apply filter_In in Hy as [Hy Hc]. apply Z.leb_le in Hc. specialize (Hmin _ Hy). lia. }
+      cbn [map length]. rewrite app_nil_r.
+      split; [reflexivity|]. split; [constructor|]. split; [intros b []|]. split; [constructor|].
+      split; [intros x0 y []|]. split; [lia|]. split; [intros _ y Hy; exact (Hnone y Hy)|]. split; [exact HS1|]. split; [exact HD|].
+      intros b. split; [intros H; left; split; [exact H|intros []]|].
+      intros [[H _]|(a & k & t & _ & Ha & _)]; [exact H|lia].
     + apply Z.ltb_ge in Ec.
       assert (Hwx : wf_entry x). { destruct HD as [_ Hw]. rewrite Forall_forall in Hw. auto. }
       destruct (ts_delete Q x d s1) as [s2 d2] eqn:Ed.
@@ -207,45 +216,74 @@ Proof.
           exfalso. rewrite Forall_forall in Hdur. specialize (Hdur _ Hin). unfold dur_ok in Hdur. cbn in Hdur.
           rewrite key_time_enc in Hc by exact Hdur. cbn in Hc. apply Z.leb_le in Hc. lia.
         - intros [[Hb Hc] Hne]. split; auto. }
-      assert (Hperm : Permutation (x :: due_d cw d3) (due_d cw d)).
-      { apply NoDup_Permutation.
-        - constructor.
-          + intros H. apply Hmem in H. tauto.
-          + apply ssorted_NoDup, filter_sorted, HD3.
-        - apply ssorted_NoDup, filter_sorted, Hsd.
-        - intros b. split.
-          + intros [<-|H]; [|apply Hmem in H; tauto]. unfold due_d. apply filter_In. split; auto. apply Z.leb_le. exact Ec.
-          + intros H. destruct (list_eq_dec N.eq_dec b x) as [->|Hne]; [left; reflexivity|right]. apply Hmem. auto. }
-      assert (Hf : (length (due_d cw d3) < f)%nat).
-      { apply Permutation_length in Hperm. cbn in Hperm. lia. }
-      destruct (IH cw (S n) during s3 d3 _ out s' d' HS3 HD3 Hdur Hf E) as (fb & -> & Hp & Hso & HS' & HD' & M').
-      exists (x :: fb). split; [|split; [|split; [|split; [|split]]]]; auto.
+      assert (Hxdue : In x (due_d cw d)).
+      { unfold due_d. apply filter_In. split; auto. apply Z.leb_le. exact Ec. }
+      destruct (IH cw (S n) during s3 d3 _ out s' d' HS3 HD3 Hdur E) as (fb & -> & Hnd & Hsub & Hso & Hear & Hlen & Hall & HS' & HD' & M').
+      assert (Hxfb : ~ In x fb). { intros H. apply Hsub, Hmem in H. tauto. }
+      exists (x :: fb). split; [|split; [|split; [|split; [|split; [|split; [|split; [|split; [|split]]]]]]]]; auto.
       * cbn [rev map]. rewrite <- app_assoc. reflexivity.
-      * rewrite <- Hperm. constructor. exact Hp.
+      * constructor; auto.
+      * intros b [<-|Hb]; [exact Hxdue|]. apply Hsub, Hmem in Hb. tauto.
       * cbn [map]. constructor; auto. apply Forall_forall. intros y Hy. apply in_map_iff in Hy as (b & <- & Hb).
         unfold le_time, dec. cbn [snd]. apply Hmin.
-        assert (Hb' : In b (due_d cw d3)) by (rewrite <- Hp; exact Hb).
-        apply Hmem in Hb' as [Hb' _]. unfold due_d in Hb'. apply filter_In in Hb'. tauto.
+        apply Hsub, Hmem in Hb. destruct Hb as [Hb _]. unfold due_d in Hb. apply filter_In in Hb. tauto.
+      * intros x0 y [<-|Hx0] Hy Hny.
+        -- apply Hmin. unfold due_d in Hy. apply filter_In in Hy. tauto.
+        -- apply Hear; auto.
+           ++ apply Hmem. split; auto. intros ->. apply Hny. left. reflexivity.
+           ++ intros H. apply Hny. right. exact H.
+      * cbn [length]. lia.
+      * cbn [length]. intros Hl y Hy. destruct (list_eq_dec N.eq_dec y x) as [->|Hne]; [left; reflexivity|right].
+        apply Hall; [lia|]. apply Hmem. auto.
       * intros b. rewrite M'. cbn [length]. split.
         -- intros [[Hb Hc]|(a & k & t & Hin & Ha & Hw & ->)].
            ++ apply M3 in Hb as [Hb|(a & k & t & Hin & -> & Hw & ->)].
-              ** apply In_sdel in Hb as [Hb _]; auto.
+              ** apply In_sdel in Hb as [Hb Hne]; auto. left. split; auto. intros [<-|H]; [congruence|auto].
               ** right. exists (S n), k, t. repeat split; auto; lia.
            ++ right. exists a, k, t. repeat split; auto; lia.
         -- intros [[Hb Hc]|(a & k & t & Hin & Ha & Hw & ->)].
-           ++ left. split; auto. apply M3. left. apply In_sdel; auto. split; auto. intros ->. lia.
+           ++ left. split.
+              ** apply M3. left. apply In_sdel; auto. split; auto. intros ->. apply Hc. left. reflexivity.
+              ** intros H. apply Hc. right. exact H.
            ++ destruct (Nat.eq_dec a (S n)) as [->|Hne].
               ** left. split.
                  --- apply M3. right. exists (S n), k, t. auto.
-                 --- rewrite Forall_forall in Hdur. specialize (Hdur _ Hin). unfold dur_ok in Hdur. cbn in Hdur.
-                     rewrite key_time_enc by exact Hdur. exact Hw.
+                 --- intros H. apply Hsub in H. unfold due_d in H. apply filter_In in H as [_ H].
+                     rewrite Forall_forall in Hdur. specialize (Hdur _ Hin). unfold dur_ok in Hdur. cbn in Hdur.
+                     rewrite key_time_enc in H by exact Hdur. cbn in H. apply Z.leb_le in H. lia.
               ** right. exists a, k, t. repeat split; auto; lia.
   - (* empty DB *)
-    subst d. inversion E; subst out s' d'. exists []. cbn [map due_d filter]. rewrite app_nil_r.
-    split; [reflexivity|]. split; [constructor|]. split; [constructor|]. split; [exact HS1|]. split; [exact HD|].
-    intros b. split.
-    + intros [].
-    + intros [[[] _]|(a & k & t & _ & Ha & _)]. cbn [length] in Ha. lia.
+    subst d. inversion E; subst out s' d'. exists []. cbn [map length]. rewrite app_nil_r.
+    split; [reflexivity|]. split; [constructor|]. split; [intros b []|]. split; [constructor|].
+    split; [intros x y []|]. split; [lia|]. split; [intros _ y []|]. split; [exact HS1|]. split; [exact HD|].
+    intros b. split; [intros []|].
+    intros [[[] _]|(a & k & t & _ & Ha & _)]. lia.
+Qed.
+
+(* a drained iterator: more fuel than due entries *)
+Lemma fire_spec fuel : forall cw n during s d acc out s' d',
+  SInv d s -> DBInv d -> Forall dur_ok during ->
+  (length (due_d cw d) < fuel)%nat ->
+  fire Q kgf fuel cw n during s d acc = (out, s', d') ->
+  exists fb, out = rev acc ++ map dec fb /\ Permutation fb (due_d cw d) /\ StronglySorted le_time (map dec fb) /\
+    SInv d' s' /\ DBInv d' /\
+    forall b, In b d' <->
+      (In b d /\ (cw < key_time b)%Z) \/
+      (exists a k t, In (a, k, t) during /\ (n < a <= n + length fb)%nat /\ (cw < t)%Z /\ b = enc (k, t)).
+Proof.
+  intros cw n during s d acc out s' d' HS HD Hdur Hfuel E.
+  destruct (fire_spec_gen fuel _ _ _ _ _ _ _ _ _ HS HD Hdur E) as (fb & Ho & Hnd & Hsub & Hso & _ & _ & Hall & HS' & HD' & M).
+  assert (Hnd2 : NoDup (due_d cw d)) by (apply ssorted_NoDup, filter_sorted, HD).
+  assert (Hle : (length fb <= length (due_d cw d))%nat) by (apply NoDup_incl_length; auto).
+  assert (Hall' : forall y, In y (due_d cw d) -> In y fb) by (apply Hall; lia).
+  exists fb. split; [exact Ho|]. split; [apply NoDup_Permutation; auto; intros b; split; auto|].
+  split; [exact Hso|]. split; [exact HS'|]. split; [exact HD'|].
+  intros b. rewrite M. split.
+  - intros [[Hb Hn]|H]; [left|right; exact H]. split; auto.
+    destruct (cw <? key_time b)%Z eqn:Ec; [apply Z.ltb_lt; exact Ec|]. exfalso. apply Hn, Hall'.
+    unfold due_d. apply filter_In. split; auto. apply Z.leb_le. apply Z.ltb_ge in Ec. exact Ec.
+  - intros [[Hb Hc]|H]; [left|right; exact H]. split; auto.
+    intros H. apply Hsub in H. unfold due_d in H. apply filter_In in H as [_ H]. apply Z.leb_le in H. lia.
 Qed.
 
 
@@ -258,6 +296,7 @@ Definition op_okc (o : op) : Prop :=
   match o with
   | SetTimer k t => fired_ok (k, t)
   | AdvanceSet _ _ during => Forall dur_ok during
+  | AdvancePartial _ _ _ during => Forall dur_ok during
   | _ => True
   end.
 
@@ -314,7 +353,7 @@ Qed.
 
 Lemma advance_rel st sp sender wm during out st' :
   Rel st sp -> Forall dur_ok during ->
-  advance Q kgf sender wm during st = (out, st') ->
+  advance Q kgf None sender wm during st = (out, st') ->
   Permutation out (fst (sp_advance sender wm during sp)) /\ StronglySorted le_time out /\ NoDup out /\
   Rel st' (snd (sp_advance sender wm during sp)).
 Proof.
@@ -357,40 +396,6 @@ Proof.
       * right. exists a, k, t. repeat split; auto; lia.
 Qed.
 
-Definition out_ok (out due : list fired) : Prop := Permutation out due /\ StronglySorted le_time out /\ NoDup out.
-
-Theorem run_refines ops : forall st sp outs st',
-  Rel st sp -> Forall op_okc ops ->
-  run cfg ops st = (outs, st') ->
-  Forall2 out_ok outs (fst (spec_run srids ops sp)) /\ Rel st' (snd (spec_run srids ops sp)).
-Proof.
-  induction ops as [|o r IH]; intros st sp outs st' HR Hok E; cbn [run spec_run] in *.
-  - inversion E; subst. split; [constructor|exact HR].
-  - inversion Hok as [|? ? Ho Hr]; subst.
-    destruct (step cfg o st) as [out st1] eqn:Es.
-    destruct (run cfg r st1) as [outs2 st2] eqn:Er. inversion E; subst outs st'. clear E.
-    destruct o as [k t|sender wm|sender wm during|]; cbn [step sp_step cfg cf_q cf_kgf] in *.
-    + inversion Es; subst out st1.
-      destruct (spec_run srids r (sp_set k t sp)) as [dues sp2] eqn:Esp.
-      pose proof (IH _ _ _ _ (set_timer_rel st sp k t HR Ho) Hr Er) as H. rewrite Esp in H. exact H.
-    + destruct (advance Q kgf sender wm [] st) as [o1 st1'] eqn:Ea. inversion Es; subst out st1.
-      destruct (advance_rel st sp sender wm [] o1 st1' HR (Forall_nil _) Ea) as (Hp & Hso & Hnd & HR1).
-      destruct (sp_advance sender wm [] sp) as [due sp1] eqn:Esa. cbn [fst snd] in *.
-      destruct (spec_run srids r sp1) as [dues sp2] eqn:Esp.
-      pose proof (IH _ _ _ _ HR1 Hr Er) as H. rewrite Esp in H. cbn [fst snd app] in *.
-      split; [constructor; [repeat split; assumption|apply H]|apply H].
-    + destruct (advance Q kgf sender wm during st) as [o1 st1'] eqn:Ea. inversion Es; subst out st1.
-      destruct (advance_rel st sp sender wm during o1 st1' HR Ho Ea) as (Hp & Hso & Hnd & HR1).
-      destruct (sp_advance sender wm during sp) as [due sp1] eqn:Esa. cbn [fst snd] in *.
-      destruct (spec_run srids r sp1) as [dues sp2] eqn:Esp.
-      pose proof (IH _ _ _ _ HR1 Hr Er) as H. rewrite Esp in H. cbn [fst snd app] in *.
-      split; [constructor; [repeat split; assumption|apply H]|apply H].
-    + inversion Es; subst out st1.
-      destruct (spec_run srids r (spec_new srids (sp_pending sp))) as [dues sp2] eqn:Esp.
-      pose proof (IH _ _ _ _ (restore_rel st sp HR) Hr Er) as H. rewrite Esp in H. exact H.
-Qed.
-
-
 Lemma sorted_time_sorted l : StronglySorted le_time l -> time_sorted l = true.
 Proof.
   induction l as [|x l IH]; intros H; [reflexivity|].
@@ -398,6 +403,121 @@ Proof.
   specialize (IH Hs). inversion Hf; subst.
   change (time_sorted (x :: y :: l)) with ((snd x <=? snd y)%Z && time_sorted (y :: l)).
   rewrite IH, andb_true_r. apply Z.leb_le. assumption.
+Qed.
+
+(* the consumer stops after k items: what was handed out satisfies [partial_ok] and exactly that left the pending set *)
+Lemma advance_partial_rel st sp sender wm k during out st' :
+  Rel st sp -> Forall dur_ok during ->
+  advance Q kgf (Some k) sender wm during st = (out, st') ->
+  partial_ok k (fst (sp_advance_partial sender wm during out sp)) out /\
+  Rel st' (snd (sp_advance_partial sender wm during out sp)).
+Proof.
+  destruct st as [r d]. intros (HS & HD & Hu & Hw & HP) Hdur E. cbn [fst snd] in *.
+  unfold advance in E. rewrite Hu in E.
+  set (ups := ups_set sender wm (sp_ups sp)) in *. set (cw := ups_min ups) in *.
+  destruct (fire Q kgf k cw 0 during (r_store r) d []) as [[o s'] d'] eqn:Ef.
+  inversion E; subst out st'. clear E.
+  destruct (fire_spec_gen _ _ _ _ _ _ _ _ _ _ HS HD Hdur Ef) as (fb & -> & Hnd & Hsub & Hso & Hear & Hlen & Hall & HS' & HD' & M).
+  cbn [rev app].
+  pose proof (due_perm d _ cw HD HP) as Hdp.
+  destruct HP as (Hn & Hok & Hm). rewrite Forall_forall in Hok.
+  assert (Hdw : forall b, In b d -> wf_entry b). { destruct HD as [_ Hw']. rewrite Forall_forall in Hw'. exact Hw'. }
+  assert (Hfbw : forall b, In b fb -> In b d /\ (key_time b <= cw)%Z).
+  { intros b Hb. apply Hsub in Hb. unfold due_d in Hb. apply filter_In in Hb as [Hb Hc]. apply Z.leb_le in Hc. auto. }
+  (* an element of P is handed out iff its encoding is *)
+  assert (Hout : forall x, In x (sp_pending sp) -> (In x (map dec fb) <-> In (enc x) fb)).
+  { intros x Hx. split.
+    - intros Hi. apply in_map_iff in Hi as (b & Eb & Hb). destruct (Hfbw _ Hb) as [Hbd _].
+      destruct (enc_dec b (Hdw _ Hbd)) as [Ee _]. rewrite Eb in Ee. rewrite Ee. exact Hb.
+    - intros Hi. apply in_map_iff. exists (enc x). split; [apply dec_enc; auto|exact Hi]. }
+  unfold sp_advance_partial. fold ups. fold cw. cbn [fst snd].
+  set (due := filter (is_due cw) (sp_pending sp)).
+  assert (Hdl : length (due_d cw d) = length due).
+  { unfold due. rewrite <- (Permutation_length Hdp), map_length. reflexivity. }
+  assert (Hdue : forall y, In y due -> In (enc y) (due_d cw d) /\ In y (sp_pending sp)).
+  { intros y Hy. unfold due in Hy. apply filter_In in Hy as [Hy Hc]. split; auto.
+    unfold due_d. apply filter_In. split; [apply Hm, in_map; exact Hy|]. rewrite key_time_enc by auto. exact Hc. }
+  split.
+  - (* partial_ok *)
+    split; [|split; [|split; [|split]]].
+    + apply NoDup_map_local; auto. intros x y Hx Hy. apply dec_inj_wf; apply Hdw; apply Hfbw; auto.
+    + intros y Hy. apply (Permutation_in _ Hdp). apply in_map_iff in Hy as (b & <- & Hb). apply in_map, Hsub, Hb.
+    + apply sorted_time_sorted, Hso.
+    + rewrite map_length, <- Hdl.
+      assert (Hle : (length fb <= length (due_d cw d))%nat).
+      { apply NoDup_incl_length; auto. }
+      destruct (Nat.lt_ge_cases (length fb) k) as [Hlt|Hge].
+      * assert (Hge' : (length (due_d cw d) <= length fb)%nat).
+        { apply NoDup_incl_length; [apply ssorted_NoDup, filter_sorted, HD|]. intros y Hy. apply Hall; auto. }
+        lia.
+      * lia.
+    + intros x y Hx Hy Hny. apply in_map_iff in Hx as (b & <- & Hb). destruct (Hdue _ Hy) as [Hyd Hyp].
+      unfold dec at 1. cbn [snd]. rewrite <- (key_time_enc y) by auto. apply Hear; auto.
+      intros H. apply Hny. apply Hout; auto.
+  - split; [exact HS'|]. split; [exact HD'|]. split; [reflexivity|]. split; [reflexivity|]. cbn [sp_pending].
+    rewrite (map_length dec fb).
+    destruct (during_fold_spec cw (length fb) during (removed (map dec fb) (sp_pending sp))
+                (NoDup_filter _ Hn)) as [Hn' M'].
+    assert (Hrem : forall x, In x (removed (map dec fb) (sp_pending sp)) <-> In x (sp_pending sp) /\ ~ In x (map dec fb)).
+    { intros x. unfold removed. rewrite filter_In, negb_true_iff. split.
+      - intros [Hx Hc]. split; auto. intros Hi. apply existsb_fired in Hi. congruence.
+      - intros [Hx Hc]. split; auto. destruct (existsb (fired_eqb x) (map dec fb)) eqn:Ee; auto.
+        apply existsb_fired in Ee. contradiction. }
+    split; [exact Hn'|]. split.
+    + apply Forall_forall. intros x Hx. apply M' in Hx as [Hx|(a & k0 & t & Hin & _ & _ & ->)].
+      * apply Hrem in Hx as [Hx _]. auto.
+      * rewrite Forall_forall in Hdur. apply (Hdur _ Hin).
+    + intros b. rewrite M, in_map_iff. split.
+      * intros [[Hb Hc]|(a & k0 & t & Hin & Ha & Hw' & ->)].
+        -- apply Hm in Hb. apply in_map_iff in Hb as (x & <- & Hx). exists x. split; [reflexivity|].
+           apply M'. left. apply Hrem. split; auto. intros Hi. apply Hc. apply Hout; auto.
+        -- exists (k0, t). split; [reflexivity|]. apply M'. right. exists a, k0, t. repeat split; auto; lia.
+      * intros (x & <- & Hx). apply M' in Hx as [Hx|(a & k0 & t & Hin & Ha & Hw' & ->)].
+        -- apply Hrem in Hx as [Hx Hc]. left. split; [apply Hm, in_map; exact Hx|]. intros Hi. apply Hc. apply Hout; auto.
+        -- right. exists a, k0, t. repeat split; auto; lia.
+Qed.
+
+Definition out_ok (out : list fired) (e : expect) : Prop :=
+  match snd e with
+  | None => Permutation out (fst e) /\ time_sorted out = true /\ NoDup out
+  | Some k => partial_ok k (fst e) out
+  end.
+
+Theorem run_refines ops : forall st sp outs st',
+  Rel st sp -> Forall op_okc ops ->
+  run cfg ops st = (outs, st') ->
+  Forall2 out_ok outs (fst (spec_run srids ops outs sp)) /\ Rel st' (snd (spec_run srids ops outs sp)).
+Proof.
+  induction ops as [|o r IH]; intros st sp outs st' HR Hok E; cbn [run spec_run] in *.
+  - inversion E; subst. split; [constructor|exact HR].
+  - inversion Hok as [|? ? Ho Hr]; subst.
+    destruct (step cfg o st) as [out st1] eqn:Es.
+    destruct (run cfg r st1) as [outs2 st2] eqn:Er. inversion E; subst outs st'. clear E.
+    destruct o as [k t|sender wm|sender wm during|sender wm k during|]; cbn [step sp_step is_adv cfg cf_q cf_kgf] in *.
+    + inversion Es; subst out st1. cbn [app].
+      destruct (spec_run srids r outs2 (sp_set k t sp)) as [dues sp2] eqn:Esp.
+      pose proof (IH _ _ _ _ (set_timer_rel st sp k t HR Ho) Hr Er) as H. rewrite Esp in H. exact H.
+    + destruct (advance Q kgf None sender wm [] st) as [o1 st1'] eqn:Ea. inversion Es; subst out st1. cbn [app hd tl].
+      destruct (advance_rel st sp sender wm [] o1 st1' HR (Forall_nil _) Ea) as (Hp & Hso & Hnd & HR1).
+      destruct (sp_advance sender wm [] sp) as [due sp1] eqn:Esa. cbn [fst snd] in *.
+      destruct (spec_run srids r outs2 sp1) as [dues sp2] eqn:Esp.
+      pose proof (IH _ _ _ _ HR1 Hr Er) as H. rewrite Esp in H. cbn [fst snd app] in *.
+      split; [constructor; [|apply H]|apply H]. unfold out_ok. cbn [fst snd]. repeat split; auto. apply sorted_time_sorted, Hso.
+    + destruct (advance Q kgf None sender wm during st) as [o1 st1'] eqn:Ea. inversion Es; subst out st1. cbn [app hd tl].
+      destruct (advance_rel st sp sender wm during o1 st1' HR Ho Ea) as (Hp & Hso & Hnd & HR1).
+      destruct (sp_advance sender wm during sp) as [due sp1] eqn:Esa. cbn [fst snd] in *.
+      destruct (spec_run srids r outs2 sp1) as [dues sp2] eqn:Esp.
+      pose proof (IH _ _ _ _ HR1 Hr Er) as H. rewrite Esp in H. cbn [fst snd app] in *.
+      split; [constructor; [|apply H]|apply H]. unfold out_ok. cbn [fst snd]. repeat split; auto. apply sorted_time_sorted, Hso.
+    + destruct (advance Q kgf (Some k) sender wm during st) as [o1 st1'] eqn:Ea. inversion Es; subst out st1. cbn [app hd tl].
+      destruct (advance_partial_rel st sp sender wm k during o1 st1' HR Ho Ea) as (Hp & HR1).
+      destruct (sp_advance_partial sender wm during o1 sp) as [due sp1] eqn:Esa. cbn [fst snd] in *.
+      destruct (spec_run srids r outs2 sp1) as [dues sp2] eqn:Esp.
+      pose proof (IH _ _ _ _ HR1 Hr Er) as H. rewrite Esp in H. cbn [fst snd app] in *.
+      split; [constructor; [|apply H]|apply H]. exact Hp.
+    + inversion Es; subst out st1. cbn [app].
+      destruct (spec_run srids r outs2 (spec_new srids (sp_pending sp))) as [dues sp2] eqn:Esp.
+      pose proof (IH _ _ _ _ (restore_rel st sp HR) Hr Er) as H. rewrite Esp in H. exact H.
 Qed.
 
 Lemma Pend_perm d P : DBInv d -> Pend d P -> Permutation d (map enc P).
@@ -415,15 +535,14 @@ Definition cache_inv (st : sys) : Prop :=
 
 Theorem refinement ops :
   Forall op_okc ops ->
-  Forall2 (fun out due => Permutation out due /\ time_sorted out = true /\ NoDup out)
-          (fst (run cfg ops (sys_new cfg []))) (fst (spec_run srids ops (spec_new srids []))) /\
-  Permutation (snd (snd (run cfg ops (sys_new cfg [])))) (map enc (sp_pending (snd (spec_run srids ops (spec_new srids []))))) /\
+  let outs := fst (run cfg ops (sys_new cfg [])) in
+  Forall2 out_ok outs (fst (spec_run srids ops outs (spec_new srids []))) /\
+  Permutation (snd (snd (run cfg ops (sys_new cfg [])))) (map enc (sp_pending (snd (spec_run srids ops outs (spec_new srids []))))) /\
   cache_inv (snd (run cfg ops (sys_new cfg []))).
 Proof.
   intros Hok. destruct (run cfg ops (sys_new cfg [])) as [outs st'] eqn:E.
   destruct (run_refines ops _ _ _ _ Rel_init Hok E) as [H2 HR]. cbn [fst snd].
-  split; [|split].
-  - eapply Forall2_imp; [|exact H2]. intros a b (Hp & Hs & Hn). repeat split; auto. apply sorted_time_sorted. exact Hs.
+  split; [exact H2|split].
   - destruct HR as (_ & HD & _ & _ & HP). apply Pend_perm; auto.
   - destruct HR as ((_ & _ & Hp) & _). intros i p Ei. destruct (Hp _ _ Ei) as (_ & HP & Hsz). split; [exact HP|exact Hsz].
 Qed.
